@@ -7,6 +7,7 @@ Decided:
   P1  every way round every loop advances a cursor (termination)
   E1  purity: the function and its callees read no static/global state other than the runtime debug level, and call
       only pure library functions — together with B1 the result depends on the arguments alone
+  X1  numeric components are not ordered through a wrapping difference or a narrowed conversion of the digit runs
 Not decided: antisymmetry and the ordering of well-formed versions (values)."""
 import re
 
